@@ -446,7 +446,7 @@ Definition oshape (nl : nat) (L : list (option (nat * Z))) (o' o : sop) : Prop :
   (o' = o /\ forall l b sz, o = SDelta l b sz -> size_ok sz = true \/ ~ ((l < nl)%nat /\ (b < nl)%nat)) \/
   (exists l b sz, o = SDelta l b sz /\ (l < nl)%nat /\ (b < nl)%nat /\ size_ok sz = false /\ o' = SGap (-1)) \/
   (exists l b sz ks lo bo, o = SDelta l b sz /\ size_ok sz = true /\ nth_error L l = Some (Some (ks, lo)) /\ nth_error L b = Some (Some (ks, bo)) /\
-                           o' = SRaw (dbytes sz (lo - bo))).
+                           delta_fits sz (lo - bo) = true /\ o' = SRaw (dbytes sz (lo - bo))).
 
 Lemma label_mono_trans : forall a b c, label_mono a b -> label_mono b c -> label_mono a c.
 Proof. intros a b c H1 H2 l v H. apply H2, H1. exact H. Qed.
@@ -458,7 +458,7 @@ Qed.
 
 Lemma oshape_mono : forall nl L L' o' o, label_mono L L' -> oshape nl L o' o -> oshape nl L' o' o.
 Proof.
-  intros nl L L' o' o M [H|[H|(l & b & sz & ks & lo & bo & E & Z1 & A & B & E')]]; [left; exact H|right; left; exact H|].
+  intros nl L L' o' o M [H|[H|(l & b & sz & ks & lo & bo & E & Z1 & A & B & FT & E')]]; [left; exact H|right; left; exact H|].
   right. right. exists l, b, sz, ks, lo, bo. repeat split; auto.
 Qed.
 
@@ -499,25 +499,27 @@ Proof.
     destruct (Nat.eqb ls bs) eqn:ES; [|exact SURV]. apply Nat.eqb_eq in ES. subst bs.
     cbn in HMx. rewrite (HMx ls lo bo EL EB EZ).
     right. right. exists l, b, sz, ls, lo, bo. repeat split; auto.
+    exact (HMx ls lo bo EL EB EZ).
 Qed.
 
 Definition orel (L : list (option (nat * Z))) (o1 o2 : sop) : Prop :=
   o1 = o2 \/
   exists l b sz ks lo bo, nth_error L l = Some (Some (ks, lo)) /\ nth_error L b = Some (Some (ks, bo)) /\ size_ok sz = true /\
+    delta_fits sz (lo - bo) = true /\
     ((o1 = SDelta l b sz /\ o2 = SRaw (dbytes sz (lo - bo))) \/ (o1 = SRaw (dbytes sz (lo - bo)) /\ o2 = SDelta l b sz)).
 
 Lemma oshape_compose : forall nl L a o, Forall2 (oshape nl L) a o -> forall b, Forall2 (oshape nl L) b o -> Forall2 (orel L) a b.
 Proof.
   intros nl L a o H. induction H as [|x y a o R H IH]; intros b Hb; inversion Hb as [|x' y' b' o' R' H']; subst; constructor; [|apply IH; assumption].
-  destruct R as [[-> S1]|[(l & bl & sz & E & L1 & L2 & Z1 & ->)|(l & bl & sz & ks & lo & bo & E & Z1 & A & B & ->)]];
-  destruct R' as [[-> S2]|[(l' & bl' & sz' & E' & L1' & L2' & Z2 & ->)|(l' & bl' & sz' & ks' & lo' & bo' & E' & Z2 & A' & B' & ->)]].
+  destruct R as [[-> S1]|[(l & bl & sz & E & L1 & L2 & Z1 & ->)|(l & bl & sz & ks & lo & bo & E & Z1 & A & B & FT & ->)]];
+  destruct R' as [[-> S2]|[(l' & bl' & sz' & E' & L1' & L2' & Z2 & ->)|(l' & bl' & sz' & ks' & lo' & bo' & E' & Z2 & A' & B' & FT' & ->)]].
   - now left.
   - exfalso. destruct (S1 l' bl' sz' E') as [X|X]; [congruence|apply X; split; assumption].
-  - right. exists l', bl', sz', ks', lo', bo'. split; [exact A'|]. split; [exact B'|]. split; [exact Z2|]. left. split; [exact E'|reflexivity].
+  - right. exists l', bl', sz', ks', lo', bo'. split; [exact A'|]. split; [exact B'|]. split; [exact Z2|]. split; [exact FT'|]. left. split; [exact E'|reflexivity].
   - exfalso. destruct (S2 l bl sz E) as [X|X]; [congruence|apply X; split; assumption].
   - now left.
   - exfalso. rewrite E in E'. injection E' as <- <- <-. congruence.
-  - right. exists l, bl, sz, ks, lo, bo. split; [exact A|]. split; [exact B|]. split; [exact Z1|]. right. split; [reflexivity|exact E].
+  - right. exists l, bl, sz, ks, lo, bo. split; [exact A|]. split; [exact B|]. split; [exact Z1|]. split; [exact FT|]. right. split; [reflexivity|exact E].
   - exfalso. rewrite E in E'. injection E' as <- <- <-. congruence.
   - left. rewrite E in E'. injection E' as <- <- <-. rewrite A in A'. injection A' as <- <-. rewrite B in B'. injection B' as <-. reflexivity.
 Qed.
